@@ -120,3 +120,30 @@ MUTANTS += [
                 "    fn scan(&mut self, chunk: &[u8]) -> (usize, Option<Result<T, MatcherBuffer>>) {\n"
                 "        let mut used = 0;\n        for byte in chunk.iter() {\n            if let Some(item) = self.decode_byte(*byte) {\n                return (used, Some(item));\n            }\n            used += 1;\n        }\n        (used, None)\n    }\n\n")]},
 ]
+
+
+# ---- accepting *terminal* state emitted at once (the exact fast path of record + take_candidate) and its near misses
+_REC = ("                    self.item_candidate.replace((event, self.buffer.len()));\n                    if state_desc.is_terminal {\n"
+        "                        return self.take_candidate();\n                    }\n")
+
+
+def _fast(cond="state_desc.is_terminal", clear_cand="self.item_candidate = None;", clear_buf="self.buffer.clear();", ret="Some(event)"):
+    body = "".join("                        %s\n" % l for l in (clear_cand, clear_buf, "self.automata_state = self.automata.automata.start();", "return %s;" % ret) if l)
+    return ("                    if %s {\n%s                    }\n                    self.item_candidate.replace((event, self.buffer.len()));\n" % (cond, body))
+
+
+MUTANTS += [
+    {"id": "C03-benign-terminal-fast-path", "prop": "C03", "benign": True, "edits": [(_D, _REC, _fast())]},
+    {"id": "C03-benign-terminal-fast-path-take-truncate", "prop": "C03", "benign": True,
+     "edits": [(_D, _REC, _fast(cond="!state_desc.is_terminal {\n                        self.item_candidate = Some((event, self.buffer.len()));\n                    } else",
+                                clear_cand="self.item_candidate.take();", clear_buf="self.buffer.truncate(0);").replace(
+                                    "                    self.item_candidate.replace((event, self.buffer.len()));\n", ""))]},
+    {"id": "C03-benign-debug-asserts", "prop": "C03", "benign": True,
+     "edits": [(_D, _TAKE, "            debug_assert!(size <= self.buffer.len(), \"candidate is longer than consumed data\");\n" + _TAKE),
+               (_D, "        // process rescheduled data first\n", "        debug_assert!(self.rescheduled.is_empty() || self.buffer.is_empty());\n")]},
+    {"id": "C03-fast-path-keeps-stale-candidate", "prop": "C03", "expect": "LONGEST", "edits": [(_D, _REC, _fast(clear_cand=""))]},
+    {"id": "C03-fast-path-non-terminal", "prop": "C03", "expect": "LONGEST", "edits": [(_D, _REC, _fast(cond="state_desc.is_terminal || self.buffer.len() > 8"))]},
+    {"id": "C03-fast-path-buffer-kept", "prop": "C03", "expect": "LONGEST", "edits": [(_D, _REC, _fast(clear_buf=""))]},
+    {"id": "C03-fast-path-emits-buffer", "prop": "C03", "expect": "LONGEST",
+     "edits": [(_D, _REC, _fast(clear_buf="let raw = std::mem::take(&mut self.buffer);", ret="Some(event.and(Err(raw)))"))]},
+]
